@@ -1,11 +1,11 @@
 """C18 -- the index lists every entry exactly once, under its key, in collation order.
 
-Only two small helper contracts are within reach of the verifier so far (a page reference is exactly one of normal / see / seealso; an
-entry's total length is positive); the property itself is decided by the bounded native checks (native/C18.py) and is labelled so."""
+Proved: IndexUtils.splitColumns is an order-preserving partition of its items into exactly `cols` columns with the empty columns last
+(four segments tiling the function at its top-level loops, see below); a page reference is exactly one of normal / see / seealso.
+Entry parsing, ordering, prefix merge and letter groups are decided by the bounded native checks (native/C18.py) and labelled so."""
 from pyvc.dsl import Prop, Loop, Mod
 
 P = Prop('C18', 'The index lists every entry exactly once, under its key, in collation order')
-P.level = 'exploration'    # bounded stand-in: evidence is written at exploration level
 FX = 'plasTeX/Base/LaTeX/Index.py::'
 P.cls('Any', universal=True)
 P.cls('IndexEntry', fields=dict(type='int'))
@@ -21,6 +21,120 @@ P.fn(FX + 'IndexDestination.normal', name='IndexDestination.normal', params=dict
      # a page reference is exactly one of: normal, see, see also
      ensures=['result == (self._cr_type != 1 and self._cr_type != 2)',
               '(1 if result else 0) + (1 if self._cr_type == 1 else 0) + (1 if self._cr_type == 2 else 0) == 1'], modifies=[])
-P.unverified_surrounding('index.invoke (entry parser), IndexEntry.__lt__, IndexUtils.digest (prefix merge), groups, splitColumns: bounded native '
-                         'checks only (nested lists built through reversal and filtering are outside the verifier\'s current reach)')
+
+# ---------------------------------------------------------------------------------------------- splitColumns: order-preserving partition
+# The items are atoms (only their identity matters: the function merely moves them around); POS is a ghost labelling of the items by
+# their index (it exists iff the items are pairwise distinct, which holds for child nodes).  The function is verified in four segments
+# that tile it at its top-level loops; the end condition of each segment is literally the start assumption of the next one.
+# Chain-style characterisation (no sums): inside a column positions are consecutive, consecutive non-empty columns continue the
+# sequence, the first non-empty column starts at position 0 and the last one ends at n-1, the result has exactly `cols` columns and
+# the empty ones come last.  By induction on the position this is equivalent to  concat(result) == items  (meta-argument, DESIGN 9.3).
+P.cls('IndexUtils')
+P.uninterp('TL', ['atom'], 'int')
+P.uninterp('POS', ['atom'], 'int')
+P.fn('totallen_of', params=dict(x='atom'), returns='int', ensures=['result == TL(x)', 'result >= 1'], trusted=True, modifies=[])
+P.fn('floor_', params=dict(x='real'), returns='int', ensures=['result <= x', 'x < result + 1'], trusted=True, modifies=[])
+PARAMS = dict(self='IndexUtils', items='list[atom]', cols='int')
+CALLS = {'item.totallen': 'totallen_of', 'int': 'floor_'}
+N = 'len(items)'
+BASE = ['cols >= 1', 'all(POS(items[i]) == i for i in range(%s))' % N]
+LOCALS = {'[]': 'list[atom]', 'entries': 'list[tuple[int,atom]]', 'output': 'list[list[atom]]', 'grandtotal': 'int', 'coltotal': 'int', 'current': 'int'}
+E1 = ['len(entries) == %s + 1' % N, 'all(entries[m + 1][1] == items[m] for m in range(%s))' % N, 'entries is not items']
+P.fn(FX + 'IndexUtils.splitColumns', name='splitColumns/1', params=PARAMS, returns='list[list[atom]]',
+     requires=BASE, stop_after_loop=0, end_ensures=E1 + BASE, allocates=True, modifies=[], calls=CALLS, locals=LOCALS,
+     loops={0: Loop(index='i', inv=['fresh(entries)', 'i <= len(items)', 'len(entries) == i + 1', 'all(entries[m + 1][1] == items[m] for m in range(i))'],
+                    modifies=[Mod('list:tuple[int,atom]', 'r is entries')])})
+
+# ---- segment 2: the main loop.  E[j] = items[n-1-j]; the columns are built back to front
+def col(c):
+    return 'output[%s]' % c
+J = 'j'
+L = 'len(output)'
+def chain(direction, placed_lo, placed_hi, first, jname='j'):
+    """columns hold runs of consecutive positions; direction -1: positions go down inside a column and from one non-empty column to the
+    next (empty columns may sit anywhere in between), +1: they go up"""
+    d = '- 1' if direction < 0 else '+ 1'
+    return [
+        'all(all(%s <= POS(output[c][t]) and POS(output[c][t]) < %s and items[POS(output[c][t])] == output[c][t] for t in range(len(output[c]))) for c in range(%s))' % (placed_lo, placed_hi, L),
+        'all(all(POS(output[c][t + 1]) == POS(output[c][t]) %s for t in range(len(output[c]) - 1)) for c in range(%s))' % (d, L),
+        'all(implies(len(output[a]) > 0 and len(output[b]) > 0 and all(len(output[m]) == 0 for m in range(a + 1, b)), '
+        'POS(output[b][0]) == POS(output[a][len(output[a]) - 1]) %s) for a in range(%s) for b in range(a + 1, %s))' % (d, L, L),
+        'all(implies(len(output[a]) > 0 and all(len(output[m]) == 0 for m in range(a)), POS(output[a][0]) == %s) for a in range(%s))' % (first, L)]
+
+
+SHAPE = ['len(output) >= 1', 'len(output) <= cols', 'fresh(output)', 'all(fresh(output[a]) for a in range(%s))' % L,
+         'output is not entries', 'output is not items',
+         'all(output[a] is not output[b] for a in range(%s) for b in range(a + 1, %s))' % (L, L),
+         'all(output[a] is not items and output[a] is not entries and output[a] is not output for a in range(%s))' % L]
+def last2(j):
+    return [x.replace('@J', j) for x in LAST2T]
+
+
+LAST2T = ['implies(@J > 0 and len(output[%s - 1]) > 0, POS(output[%s - 1][len(output[%s - 1]) - 1]) == %s - @J)' % (L, L, L, N),
+         'implies(@J > 0 and len(output[%s - 1]) == 0, %s >= 2 and len(output[%s - 2]) > 0 and POS(output[%s - 2][len(output[%s - 2]) - 1]) == %s - @J)' % (L, L, L, L, L, N),
+         'implies(@J == 0, all(len(output[a]) == 0 for a in range(%s)))' % L]
+CHAIN2 = SHAPE + chain(-1, '%s - j' % N, N, '%s - 1' % N) + last2('j')
+SHAPE_NF = [x for x in SHAPE if 'fresh' not in x]
+E2 = SHAPE_NF + chain(-1, '0', N, '%s - 1' % N) + last2(N)
+ENT2 = ['len(entries) == %s' % N, 'all(entries[m][1] == items[%s - 1 - m] for m in range(%s))' % (N, N), 'entries is not items']
+P.fn(FX + 'IndexUtils.splitColumns', name='splitColumns/2', params=PARAMS, returns='list[list[atom]]',
+     requires=[], start_after_loop=0, start_assume=E1 + BASE, stop_after_loop=1, heap_consts=True,
+     end_ensures=E2 + BASE,
+     allocates=True, modifies=[], calls=CALLS, locals=LOCALS,
+     loops={1: Loop(index='j', inv=ENT2 + CHAIN2 + ['j <= %s' % N],
+                    at_end=['len(output[%s - 1]) >= 0' % L, 'implies(%s >= 2, len(output[%s - 2]) >= 0)' % (L, L), 'implies(%s >= 3, len(output[%s - 3]) >= 0)' % (L, L)], modifies=[Mod('list:list[atom]', 'fresh(r)'), Mod('list:atom', 'fresh(r)')])})
+
+# ---- segment 3: output.reverse(), then every column is reversed in place (loop 2, index i): columns < i run upwards, the others downwards
+def lo(c, i):
+    return '(POS(output[%s][0]) if %s < %s else POS(output[%s][len(output[%s]) - 1]))' % (c, c, i, c, c)
+def hi(c, i):
+    return '(POS(output[%s][len(output[%s]) - 1]) if %s < %s else POS(output[%s][0]))' % (c, c, c, i, c)
+def mixed(i):
+    return [
+        'all(all(0 <= POS(output[c][t]) and POS(output[c][t]) < %s and items[POS(output[c][t])] == output[c][t] for t in range(len(output[c]))) for c in range(%s))' % (N, L),
+        'all(all(POS(output[c][t + 1]) == POS(output[c][t]) + (1 if c < %s else -1) for t in range(len(output[c]) - 1)) for c in range(%s))' % (i, L),
+        'all(implies(len(output[a]) > 0 and len(output[b]) > 0 and all(len(output[m]) == 0 for m in range(a + 1, b)), %s == %s + 1) '
+        'for a in range(%s) for b in range(a + 1, %s))' % (lo('b', i), hi('a', i), L, L),
+        'all(implies(len(output[a]) > 0 and all(len(output[m]) == 0 for m in range(a)), %s == 0) for a in range(%s))' % (lo('a', i), L),
+        'all(implies(len(output[a]) > 0 and all(len(output[m]) == 0 for m in range(a + 1, %s)), %s == %s - 1) for a in range(%s))' % (L, hi('a', i), N, L),
+        'implies(%s > 0, len(output[0]) > 0 or (%s >= 2 and len(output[1]) > 0))' % (N, L),
+        'implies(%s == 0, all(len(output[a]) == 0 for a in range(%s)))' % (N, L)]
+E3 = SHAPE_NF + [
+    'all(all(0 <= POS(output[c][t]) and POS(output[c][t]) < %s and items[POS(output[c][t])] == output[c][t] for t in range(len(output[c]))) for c in range(%s))' % (N, L),
+    'all(all(POS(output[c][t + 1]) == POS(output[c][t]) + 1 for t in range(len(output[c]) - 1)) for c in range(%s))' % L,
+    'all(implies(len(output[a]) > 0 and len(output[b]) > 0 and all(len(output[m]) == 0 for m in range(a + 1, b)), '
+    'POS(output[b][0]) == POS(output[a][len(output[a]) - 1]) + 1) for a in range(%s) for b in range(a + 1, %s))' % (L, L),
+    'all(implies(len(output[a]) > 0 and all(len(output[m]) == 0 for m in range(a)), POS(output[a][0]) == 0) for a in range(%s))' % L,
+    'all(implies(len(output[a]) > 0 and all(len(output[m]) == 0 for m in range(a + 1, %s)), POS(output[a][len(output[a]) - 1]) == %s - 1) for a in range(%s))' % (L, N, L),
+    'implies(%s > 0, len(output[0]) > 0 or (%s >= 2 and len(output[1]) > 0))' % (N, L),
+    'implies(%s == 0, all(len(output[a]) == 0 for a in range(%s)))' % (N, L)]
+P.fn(FX + 'IndexUtils.splitColumns', name='splitColumns/3', params=PARAMS, returns='list[list[atom]]',
+     requires=[], start_after_loop=1, start_assume=E2 + BASE, stop_after_loop=2, heap_consts=True,
+     end_ensures=E3 + BASE, allocates=True, modifies=[], calls=CALLS, locals=LOCALS,
+     loops={2: Loop(index='i', inv=SHAPE_NF + mixed('i') + ['i <= %s' % L, 'output is old(output)'],
+                    at_end=['len(output[%s - 1]) >= 0' % L, 'implies(%s >= 2, len(output[1]) >= 0)' % L, 'len(output[0]) >= 0'],
+                    modifies=[Mod('list:atom', 'any(r is output[a] for a in range(%s))' % L)])})
+
+# ---- segment 4: empty columns are filtered out, empty ones are appended up to `cols`
+def final(R, LR):
+    return [
+        'len(%s) == cols' % R,
+        'all(all(0 <= POS(%s[c][t]) and POS(%s[c][t]) < %s and items[POS(%s[c][t])] == %s[c][t] for t in range(len(%s[c]))) for c in range(%s))' % (R, R, N, R, R, R, LR),
+        'all(all(POS(%s[c][t + 1]) == POS(%s[c][t]) + 1 for t in range(len(%s[c]) - 1)) for c in range(%s))' % (R, R, R, LR),
+        # empty columns only at the end; consecutive non-empty columns continue the sequence of positions
+        'all(implies(len(%s[c]) == 0, len(%s[c + 1]) == 0) for c in range(%s - 1))' % (R, R, LR),
+        'all(implies(len(%s[c + 1]) > 0, POS(%s[c + 1][0]) == POS(%s[c][len(%s[c]) - 1]) + 1) for c in range(%s - 1))' % (R, R, R, R, LR),
+        # the first column starts with the first item, the last non-empty column ends with the last item
+        'implies(%s > 0, len(%s[0]) > 0 and POS(%s[0][0]) == 0)' % (N, R, R),
+        'all(implies(len(%s[c]) > 0 and (c + 1 == %s or len(%s[c + 1]) == 0), POS(%s[c][len(%s[c]) - 1]) == %s - 1) for c in range(%s))' % (R, LR, R, R, R, N, LR),
+        'implies(%s == 0, all(len(%s[c]) == 0 for c in range(%s)))' % (N, R, LR)]
+FIN_INV = [x for x in final('output', L) if not x.startswith('len(output) == cols')]
+P.fn(FX + 'IndexUtils.splitColumns', name='splitColumns/4', params=PARAMS, returns='list[list[atom]]',
+     requires=[], start_after_loop=2, start_assume=E3 + BASE, heap_consts=True,
+     ensures=final('result', 'len(result)'), allocates=True, modifies=[], calls=CALLS, locals=LOCALS,
+     loops={3: Loop(index='i', inv=FIN_INV + ['len(output) == cols - (i_hi - i)', 'i <= i_hi or i_hi < 0', 'len(output) <= cols', 'fresh(output)',
+                                              'all(output[a] is not output for a in range(%s))' % L],
+                    modifies=[Mod('list:list[atom]', 'r is output')])})
+
+P.unverified_surrounding('index.invoke (entry parser), IndexEntry.__lt__, IndexUtils.digest (prefix merge), groups: bounded native checks only')
 P.assume('collator / unidecode are library oracles (A4)')
